@@ -21,6 +21,7 @@ EXPLANATION = (
     "before the tail, head size = size if static else 32); create() returns only after the size self-check. "
     "The head/tail offsets as numbers for concrete type trees are not enumerated."
     ' Also evaluated here: fork-copy completeness (C20 R20.1) for the per-path length substitution, and that the candidates of every created calldata are registered where it is created.'
+    ' Round 4: the validating and the extracting pattern of --array-lengths accept the same parameter names (C18 R18.6).'
 )
 ASSUMPTIONS = ["the Solidity ABI specification (static vs dynamic types, head/tail layout)"]
 
